@@ -222,8 +222,9 @@ def substitute(expr, gens=None, cos_nonneg=()):
     return expr, gens
 
 
-def normal_form(expr, gens=None, extra_relations=(), cos_nonneg=()):
-    """Return (remainder PolyElement, ring) of the numerator of `expr`."""
+def normal_form(expr, gens=None, extra_relations=(), cos_nonneg=(), full=False):
+    """Return (remainder PolyElement, ring) of the numerator of `expr`
+    (with full=True: (numerator remainder, reduced denominator, ring, Generators))."""
     sub, gens = substitute(expr, gens, cos_nonneg)
     extra_sub = [substitute(r, gens, cos_nonneg)[0] for r in extra_relations]
     free = set(sub.free_symbols)
@@ -237,7 +238,7 @@ def normal_form(expr, gens=None, extra_relations=(), cos_nonneg=()):
     order = ws + cs + ss + others
     if not order:
         v = sp.nsimplify(sub)
-        return v, None
+        return (v, sp.Integer(1), None, gens) if full else (v, None)
     K, *_ = _field(order, sp.QQ, order=sp.polys.orderings.lex)
     el = K.from_expr(sub)
     num = el.numer
@@ -252,6 +253,11 @@ def normal_form(expr, gens=None, extra_relations=(), cos_nonneg=()):
     if rels:
         # radicands may mention cosines: make relations themselves reduced (still GB: leading terms w^2, c^2)
         num = num.rem(rels)
+    if full:
+        den = el.denom
+        if rels:
+            den = den.rem(rels)
+        return num, den, Rg, gens
     return num, Rg
 
 
@@ -270,6 +276,11 @@ def check_zero(expr, domain=None, seed=0, n_points=3, extra_relations=(), cos_no
             return Verdict("refuted", "mpmath-100", time.time() - t0,
                            "value %s" % mpmath.nstr(v, 8) if not isinstance(v, sp.Basic) else "value %s" % v,
                            point={str(k): str(val) for k, val in pt.items()}, value=str(v))
+    if expr.atoms(sp.atan2, sp.asin):
+        v = angle_congruence(expr, domain, cos_nonneg, seed)
+        if v is not None:
+            v.time_s = time.time() - t0
+            return v
     try:
         rem, _ = normal_form(expr, extra_relations=extra_relations, cos_nonneg=cos_nonneg)
     except Exception as exc:  # conversion outside the expression class
@@ -279,3 +290,80 @@ def check_zero(expr, domain=None, seed=0, n_points=3, extra_relations=(), cos_no
     return Verdict("undecided", "field-nf", time.time() - t0,
                    "non-zero remainder (%d terms) but numerically zero at %d points"
                    % (len(rem.terms()) if hasattr(rem, "terms") else 1, n_points))
+
+
+def _back_substitute(poly_or_expr, gens):
+    e = poly_or_expr.as_expr() if hasattr(poly_or_expr, "as_expr") else sp.sympify(poly_or_expr)
+    back = {PI: sp.pi}
+    for arg, (sg, cg) in gens.trig.items():
+        back[sg] = sp.sin(arg)
+        back[cg] = sp.cos(arg)
+    for _ in range(3):
+        for rad, w in gens.rad.items():
+            back[w] = sp.sqrt(sp.sympify(rad).xreplace(back))
+    return e.xreplace(back)
+
+
+def check_positive(expr, domain=None, cos_nonneg=(), seed=0):
+    """expr > 0 on the domain: reduce to normal form num/den, enclose both away from zero by
+    interval arithmetic, and take the sign at one sample point (the box is connected)."""
+    from . import nonzero
+    from .claims import CONST_BOX
+    box = dict(CONST_BOX)
+    for kk, vv in (domain or {}).items():
+        if isinstance(vv, tuple) and vv[0] != vv[1]:
+            box[kk] = vv
+    try:
+        num, den, Rg, gens = normal_form(expr, cos_nonneg=cos_nonneg, full=True)
+        n_e, d_e = _back_substitute(num, gens), _back_substitute(den, gens)
+    except Exception as exc:
+        n_e, d_e = sp.sympify(expr), sp.Integer(1)
+    for part in (n_e, d_e):
+        if part.is_number:
+            if part == 0:
+                return Verdict("undecided", "interval(mpmath.iv)", 0.0, "zero factor")
+            continue
+        v = nonzero.check_nonzero(part, box, seed=seed)
+        if v.status != "proved":
+            return Verdict("undecided", "interval(mpmath.iv)", 0.0, "cannot sign %s: %s" % (str(part)[:80], v.detail))
+    r = refute(n_e / d_e, box, seed, 1)
+    if r is not None and r[1] > 0:
+        return Verdict("proved", "field-nf+interval(mpmath.iv)", 0.0, "reduced to (%s)/(%s) > 0" % (str(n_e)[:60], str(d_e)[:40]))
+    return Verdict("undecided", "interval(mpmath.iv)", 0.0, "sign at sample point not positive")
+
+
+def angle_congruence(expr, domain=None, cos_nonneg=(), seed=0):
+    """expr = k*(atan2(Y, X) - a)  (a free of inverse trigonometric functions):
+         atan2(Y, X) == a (mod 2 pi)  <=>  Y cos a - X sin a == 0  and  S := X cos a + Y sin a > 0.
+       expr = k*(asin(u) - a), a declared in [-pi/2, pi/2]:  <=>  u == sin a.
+    Returns a Verdict (backend says the equality is modulo 2 pi) or None if the form does not apply."""
+    at = list(expr.atoms(sp.atan2)) + list(expr.atoms(sp.asin))
+    if len(at) != 1:
+        return None
+    A = at[0]
+    D_ = sp.Dummy("A")
+    ex = sp.expand(expr.xreplace({A: D_}))
+    k = sp.diff(ex, D_)
+    if k == 0 or (k.free_symbols - {PI}):
+        return None
+    rest = sp.expand(ex - k * D_)
+    if rest.has(D_):
+        return None
+    ang = sp.expand(-rest / k)
+    if ang.atoms(sp.atan2, sp.asin):
+        return None
+    if isinstance(A, sp.asin):
+        if not any(ang == c for c in cos_nonneg):
+            return Verdict("undecided", "asin-principal-branch", 0.0, "angle %s not declared in [-pi/2, pi/2]" % ang)
+        v = check_zero(A.args[0] - sp.sin(ang), domain=domain, seed=seed, cos_nonneg=cos_nonneg)
+        if v.status == "proved":
+            v.backend = "field-nf(asin principal branch)"
+        return v
+    Y, X = A.args
+    v1 = check_zero(Y * sp.cos(ang) - X * sp.sin(ang), domain=domain, seed=seed, cos_nonneg=cos_nonneg)
+    if v1.status != "proved":
+        return v1
+    v2 = check_positive(X * sp.cos(ang) + Y * sp.sin(ang), domain, cos_nonneg, seed)
+    if v2.status == "proved":
+        return Verdict("proved", "field-nf(atan2 congruence, equality modulo 2*pi)+interval", 0.0, v2.detail)
+    return Verdict("undecided", "atan2-congruence", 0.0, "direction proved, positive scale not: " + v2.detail)
